@@ -88,7 +88,7 @@ def run(ctx, rep):
         elif ob == 'O2':
             rule = 'R11.4'
         if rule:
-            rep.bad(rule, COMPILER + '::' + v['method'], '%s %s' % (ob, c), v['text'], 'src/compiler.rs')
+            rep.bad(rule, COMPILER + '::' + v['method'], '%s %s' % (ob, c), v['text'], 'src/compiler.rs', key='%s %s' % (v['oblig'], v['kc']))
 
     n_if = n_wh = n_fn = n_tg = 0
     done = set()
